@@ -8,6 +8,7 @@ package compiler
 import (
 	"reflect"
 
+	"github.com/open2b/scriggo/ast"
 	"github.com/open2b/scriggo/internal/runtime"
 )
 
@@ -16,7 +17,7 @@ import (
 // if an add panicked with a *LimitExceededError (the history stops there), and
 // other holds any other panic.
 func VerifPoolAdds(pool string, ints []int64, strs []string) (idx []int, limit bool, other any) {
-	fn := newFunction("main", "f", reflect.TypeOf(func() {}), "", nil)
+	fn := newFunction("main", "f", reflect.TypeOf(func() {}), "", &ast.Position{Line: 1, Column: 1})
 	fb := newBuilder(fn, "")
 	defer func() {
 		if r := recover(); r != nil {
